@@ -21,8 +21,20 @@ use std::sync::Arc;
 use std::sync::atomic::{AtomicI64, AtomicU64, Ordering};
 use std::time::{Duration, SystemTime, UNIX_EPOCH};
 
-/// Marker flag: the statement carries an explicit timestamp (= 7_000_000 + marker).
+/// Marker flag: the statement carries an explicit timestamp (see `explicit_ts`).
 const F_EXPLICIT: u64 = 1;
+
+/// The explicit timestamp of the statement with marker `m`; marker bits 1-2 select the
+/// kind of value: a unique ordinary one, 0, a negative one, one near i64::MAX - every
+/// i64 is a legal client timestamp (i64::MIN is left out: some servers read it as "unset").
+fn explicit_ts(m: u64) -> i64 {
+    match (m >> 1) & 3 {
+        0 => 7_000_000 + m as i64,
+        1 => 0,
+        2 => -(m as i64) - 5,
+        _ => i64::MAX - m as i64,
+    }
+}
 
 #[derive(Default)]
 struct C18Script {
@@ -216,12 +228,14 @@ async fn main(plan: Plan) -> Outcome {
         let ins = ins.clone();
         let kinds: Vec<u64> = (0..plan.per_task).map(|_| tape::choose("c18:kind", 6)).collect();
         let explicit: Vec<bool> = (0..plan.per_task).map(|_| tape::chance("c18:explicit", 1, 4)).collect();
+        let ts_kind: Vec<u64> = (0..plan.per_task).map(|_| tape::weighted("c18:explicit_value", &[5, 2, 1, 1]) as u64).collect();
+        let batch_len: Vec<usize> = (0..plan.per_task).map(|_| 1 + tape::weighted("c18:batch_len", &[2, 3, 1]) as usize).collect();
         let gaps: Vec<u64> = (0..plan.per_task).map(|_| tape::choose("c18:gap", 3)).collect();
         let per = plan.per_task;
         handles.push(tokio::spawn(async move {
             for k in 0..per {
-                let m = ((t * 100 + k) as u64 + 1) * 16 + if explicit[k] { F_EXPLICIT } else { 0 };
-                let ts = if explicit[k] { Some(7_000_000 + m as i64) } else { None };
+                let m = ((t * 100 + k) as u64 + 1) * 16 + if explicit[k] { F_EXPLICIT + 2 * ts_kind[k] } else { 0 };
+                let ts = if explicit[k] { Some(explicit_ts(m)) } else { None };
                 match kinds[k] {
                     0 => {
                         let mut st = Statement::new(client::q_write_marker(m));
@@ -236,12 +250,15 @@ async fn main(plan: Plan) -> Outcome {
                         let _ = session.execute_unpaged(&p, (k as i64, m as i64)).await;
                     }
                     2 => {
+                        // 1..3 statements (a batch of one is still a batch).
                         let mut b = Batch::default();
-                        b.append_statement((*ins).clone());
-                        b.append_statement((*ins).clone());
+                        for _ in 0..batch_len[k] {
+                            b.append_statement((*ins).clone());
+                        }
                         b.set_is_idempotent(true);
                         b.set_timestamp(ts);
-                        let _ = session.batch(&b, ((1i64, m as i64), (2i64, m as i64))).await;
+                        let values: Vec<(i64, i64)> = (0..batch_len[k]).map(|i| (1 + i as i64, m as i64)).collect();
+                        let _ = session.batch(&b, values).await;
                     }
                     4 => {
                         // The paging iterator (its worker builds every page request itself).
@@ -271,10 +288,13 @@ async fn main(plan: Plan) -> Outcome {
                         // prepares it on the fly and rebuilds the batch.
                         let mut b = Batch::default();
                         b.append_statement(Statement::new(client::Q_PREPARED_INSERT));
-                        b.append_statement((*ins).clone());
+                        for _ in 1..batch_len[k] {
+                            b.append_statement((*ins).clone());
+                        }
                         b.set_is_idempotent(true);
                         b.set_timestamp(ts);
-                        let _ = session.batch(&b, ((1i64, m as i64), (2i64, m as i64))).await;
+                        let values: Vec<(i64, i64)> = (0..batch_len[k]).map(|i| (1 + i as i64, m as i64)).collect();
+                        let _ = session.batch(&b, values).await;
                     }
                 }
                 match gaps[k] {
@@ -308,10 +328,10 @@ async fn main(plan: Plan) -> Outcome {
                 continue;
             };
             if m & F_EXPLICIT != 0 {
-                if *ts != 7_000_000 + *m as i64 {
+                if *ts != explicit_ts(*m) {
                     out.violation(
                         "c18.explicit_timestamp_not_sent",
-                        format!("statement marker {m} has explicit timestamp {} but {ts} was on the wire", 7_000_000 + *m as i64),
+                        format!("statement marker {m} has explicit timestamp {} but {ts} was on the wire", explicit_ts(*m)),
                     );
                 }
             } else if *unprepared {
